@@ -21,6 +21,7 @@
 #endif // C++17
 
 #include <dispenso/platform.h>
+#include <dispenso/detail/verif_hooks.h>
 
 namespace dispenso {
 
@@ -51,6 +52,7 @@ class AsyncRequest {
    **/
   void requestUpdate() {
     RequestState state = kNone;
+    DISPENSO_VERIF_POINT("ar.request.cas", &state_);
     state_.compare_exchange_strong(state, kNeedsUpdate, std::memory_order_acq_rel);
   }
 
@@ -60,6 +62,7 @@ class AsyncRequest {
    * @return true if an update is required, false otherwise.
    **/
   bool updateRequested() const {
+    DISPENSO_VERIF_POINT("ar.updateRequested.load", &state_);
     return state_.load(std::memory_order_acquire) == kNeedsUpdate;
   }
 
@@ -74,10 +77,13 @@ class AsyncRequest {
   template <typename... Args>
   bool tryEmplaceUpdate(Args&&... args) {
     RequestState state = kNeedsUpdate;
+    DISPENSO_VERIF_POINT("ar.tryEmplace.cas", &state_);
     if (!state_.compare_exchange_strong(state, kUpdating, std::memory_order_acq_rel)) {
       return false;
     }
+    DISPENSO_VERIF_POINT("ar.tryEmplace.emplace", &obj_);
     obj_.emplace(std::forward<Args>(args)...);
+    DISPENSO_VERIF_POINT("ar.tryEmplace.store", &state_);
     state_.store(kReady, std::memory_order_release);
     return true;
   }
@@ -89,8 +95,11 @@ class AsyncRequest {
    * no underlying data.
    **/
   OpResult getUpdate() {
+    DISPENSO_VERIF_POINT("ar.getUpdate.load", &state_);
     if (state_.load(std::memory_order_acquire) == kReady) {
+      DISPENSO_VERIF_POINT("ar.getUpdate.move", &obj_);
       auto obj = std::move(obj_);
+      DISPENSO_VERIF_POINT("ar.getUpdate.store", &state_);
       state_.store(kNone, std::memory_order_release);
       return obj;
     }
